@@ -33,6 +33,7 @@ EXPLANATION = (
     "responses flushed completely before every request; R8 the server starts every segmented transfer from a fresh buffer "
     "and toggle; R9 the local node stores an immutable copy of exactly the downloaded bytes; R10 what a later read returns is what was stored: value-source precedence of LocalNode.get_data by presence (shared with C02.R10); R11 members of arrays described once are reachable on the local node (shared with C08.R11); R5 also: no method re-runs the constructor, logging statements cannot raise (typed eager formatting, divisions), no mutable default argument is kept or mutated, no new truth-value test of a None-able number, a look-up memory the pinned tree does not have is keyed by all its inputs (arithmetic keys folded over a grid of addresses) and, on the serving side, emptied somewhere."
     " R8 also: the server's emission sites against the CiA 301 frame layouts (shared with C02.R1-R3) and per-transfer server state set by the initiate handlers."
+    ' R9 also: nothing that can refuse the write runs after the store; R8 also: per-transfer memory is reset by both initiate handlers.'
 )
 ASSUMPTIONS = [
     "not decided -- and this is most of the property: value identity over all types and values (codec and framing "
